@@ -142,7 +142,8 @@ def run_unit(name, thorough=False, use_cache=True):
         # a span that covers a whole block ("at the end of the function body", a loop body) names no clause:
         # only spans of at most three lines take part in the attribution
         for s in d["spans"]:
-            if s["l1"] - s["l0"] > 2 and len(d["spans"]) > 1: continue
+            # (a multi-line contract clause is a span of spec lines only and does take part)
+            if s["l1"] - s["l0"] > 2 and len(d["spans"]) > 1 and (s["l1"] - s["l0"] > 12 or any(1 <= ln <= len(lmap) and lmap[ln - 1].get("kind") == "code" for ln in range(s["l0"], s["l1"] + 1))): continue
             for ln in range(s["l0"], s["l1"] + 1):
                 if 1 <= ln <= len(lmap):
                     m = lmap[ln - 1]
